@@ -352,6 +352,9 @@ func dr(args map[string]string) error {
 					continue
 				}
 				i := cand[rng.Intn(len(cand))]
+				if last := cand[len(cand)-1]; last == len(regs)-1 && rng.Intn(2) == 0 {
+					i = last // the end of the key space is no longer covered
+				}
 				cluster.RemoveRegion(cluster.GetRegion(uint64(regs[i].id)))
 				regs = append(regs[:i], regs[i+1:]...)
 			case c < 96:
